@@ -314,16 +314,20 @@ func (ex *Exec) theoryCall(fr *Frame, st *State, key string, fn *ssa.Function, a
 		j := Bound(fmt.Sprintf("sj%d", ex.boundN), SInt)
 		k := Bound(fmt.Sprintf("sk%d", ex.boundN), SInt)
 		inr := func(x *Term) *Term { return And(Ge(x, Int(0)), Lt(x, ln)) }
-		var eqs, eqs2 []*Term
-		for i := range ls {
-			eqs = append(eqs, Eq(Select(news[i], j), Select(olds[i], k)))
-			eqs2 = append(eqs2, Eq(Select(olds[i], j), Select(news[i], k)))
-		}
+		// the new contents are the old ones under a bijection perm of [0,len) (inv is its inverse)
+		permF := DeclFun(fmt.Sprintf("perm!%d", ex.boundN), []Sort{SInt}, SInt)
+		invF := DeclFun(fmt.Sprintf("pinv!%d", ex.boundN), []Sort{SInt}, SInt)
+		perm := func(x *Term) *Term { return App(permF, SInt, x) }
+		inv := func(x *Term) *Term { return App(invF, SInt, x) }
 		if len(ls) > 0 {
-			ex.assume(st, Forall([]*Term{j}, Implies(inr(j), Exists([]*Term{k}, And(inr(k), And(eqs...)))), []*Term{Select(news[0], j)}))
-			ex.assume(st, Forall([]*Term{j}, Implies(inr(j), Exists([]*Term{k}, And(inr(k), And(eqs2...)))), []*Term{Select(olds[0], j)}))
+			facts := []*Term{inr(perm(j)), Eq(inv(perm(j)), j)}
+			for i := range ls {
+				facts = append(facts, Eq(Select(news[i], j), Select(olds[i], perm(j))))
+			}
+			ex.assume(st, Forall([]*Term{j}, Implies(inr(j), And(facts...)), []*Term{Select(news[0], j)}, []*Term{perm(j)}))
+			ex.assume(st, Forall([]*Term{k}, Implies(inr(k), And(inr(inv(k)), Eq(perm(inv(k)), k))), []*Term{Select(olds[0], k)}, []*Term{inv(k)}))
 		}
-		ex.note("extern", key+" (elements permuted: same length and element set; order not modelled)")
+		ex.note("extern", key+" (elements permuted by a bijection of the index range; the order produced is not modelled)")
 		return void()
 	}
 	return false
